@@ -5,6 +5,7 @@ package main
 // activation pass from the sources; sinks are reported where an active label reaches them.
 
 import (
+	"go/constant"
 	"fmt"
 	"go/token"
 	"go/types"
@@ -302,6 +303,11 @@ func (t *Taint) isVerdictValue(v ssa.Value, depth int) bool {
 					return true
 				}
 			}
+		}
+		// a zero test of the word the Nonzero primitive hands out (the OR of all limbs of an element), possibly through a
+		// helper that folds the word first: the same verdict as comparing the element's encoding with zero
+		if i := zeroTestOfParam(cal); i >= 0 && i < len(x.Call.Args) && isLimbOrWord(x.Call.Args[i]) {
+			return true
 		}
 		if len(cal.Blocks) == 0 && t.asmResult[cal.Name()] == "verdict" && isRepoFunc(cal) {
 			return true
@@ -1252,4 +1258,226 @@ func isOrFoldOfWholeSlice(v ssa.Value) bool {
 	// the accumulation and the load happen in the loop body (dominated by the true edge), in every iteration
 	body := hdr.Succs[0]
 	return step.Block() == body && load.Block() == body && len(body.Succs) == 1 && body.Succs[0] == hdr
+}
+
+// zeroTestOfParam: fn returns subtle.ConstantTimeEq/ByteEq(F(p), 0) where F is an OR of pieces (conversions, constant
+// right shifts) of one integer parameter p that together contain every bit of p; returns the index of p, or -1
+func zeroTestOfParam(fn *ssa.Function) int {
+	if fn == nil || len(fn.Blocks) != 1 || fn.Signature.Results().Len() != 1 {
+		return -1
+	}
+	var ret *ssa.Return
+	for _, in := range fn.Blocks[0].Instrs {
+		if r, ok := in.(*ssa.Return); ok {
+			ret = r
+		}
+	}
+	if ret == nil || len(ret.Results) != 1 {
+		return -1
+	}
+	call, ok := ret.Results[0].(*ssa.Call)
+	if !ok {
+		return -1
+	}
+	cal := call.Call.StaticCallee()
+	if cal == nil || (cal.String() != "crypto/subtle.ConstantTimeEq" && cal.String() != "crypto/subtle.ConstantTimeByteEq") || len(call.Call.Args) != 2 {
+		return -1
+	}
+	var folded ssa.Value
+	for i := 0; i < 2; i++ {
+		if c, ok := call.Call.Args[1-i].(*ssa.Const); ok && c.Value != nil && c.Value.ExactString() == "0" {
+			folded = call.Call.Args[i]
+		}
+	}
+	if folded == nil {
+		return -1
+	}
+	for pi, prm := range fn.Params {
+		w, _ := typeBits(prm.Type())
+		if w == 0 {
+			continue
+		}
+		// per result bit: which bits of the parameter it is the OR of
+		var cover func(v ssa.Value, depth int) ([]uint64, bool)
+		cover = func(v ssa.Value, depth int) ([]uint64, bool) {
+			if depth > 12 {
+				return nil, false
+			}
+			if v == ssa.Value(prm) {
+				m := make([]uint64, w)
+				for i := range m {
+					m[i] = 1 << uint(i)
+				}
+				return m, true
+			}
+			switch x := v.(type) {
+			case *ssa.Convert:
+				in, ok := cover(x.X, depth+1)
+				nw, _ := typeBits(x.Type())
+				if !ok || nw == 0 {
+					return nil, false
+				}
+				out := make([]uint64, nw)
+				copy(out, in) // truncation drops the high positions; widening of an unsigned value adds zeros
+				if _, signed := typeBits(x.X.Type()); signed && nw > len(in) && len(in) > 0 {
+					for i := len(in); i < nw; i++ {
+						out[i] = in[len(in)-1] // sign extension repeats the top bit
+					}
+				}
+				return out, true
+			case *ssa.BinOp:
+				switch x.Op {
+				case token.OR:
+					a, ok1 := cover(x.X, depth+1)
+					b, ok2 := cover(x.Y, depth+1)
+					if !ok1 || !ok2 {
+						return nil, false
+					}
+					if len(b) > len(a) {
+						a, b = b, a
+					}
+					out := append([]uint64(nil), a...)
+					for i := range b {
+						out[i] |= b[i]
+					}
+					return out, true
+				case token.SHR:
+					k, ok := x.Y.(*ssa.Const)
+					in, ok2 := cover(x.X, depth+1)
+					if !ok || !ok2 || k.Value == nil {
+						return nil, false
+					}
+					if _, signed := typeBits(x.X.Type()); signed {
+						return nil, false
+					}
+					sh, exact := constant.Uint64Val(constant.ToInt(k.Value))
+					if !exact {
+						return nil, false
+					}
+					out := make([]uint64, len(in))
+					for i := range out {
+						if uint64(i)+sh < uint64(len(in)) {
+							out[i] = in[uint64(i)+sh]
+						}
+					}
+					return out, true
+				}
+			}
+			return nil, false
+		}
+		m, ok := cover(folded, 0)
+		if !ok {
+			continue
+		}
+		var all uint64
+		for _, x := range m {
+			all |= x
+		}
+		full := ^uint64(0)
+		if w < 64 {
+			full = uint64(1)<<uint(w) - 1
+		}
+		if all == full {
+			return pi
+		}
+	}
+	return -1
+}
+
+// isLimbOrWord: v is loaded from a local word that is written only by a primitive whose body stores the OR of the four limbs
+// of its second argument into its first (fiat's Nonzero)
+func isLimbOrWord(v ssa.Value) bool {
+	ld, ok := v.(*ssa.UnOp)
+	if !ok || ld.Op != token.MUL {
+		return false
+	}
+	al, ok := ld.X.(*ssa.Alloc)
+	if !ok || al.Referrers() == nil {
+		return false
+	}
+	writers := 0
+	for _, ref := range *al.Referrers() {
+		switch x := ref.(type) {
+		case *ssa.DebugRef:
+		case *ssa.UnOp:
+			if x.Op != token.MUL {
+				return false
+			}
+		case *ssa.Call:
+			cal := x.Call.StaticCallee()
+			if cal == nil || len(x.Call.Args) != 2 || x.Call.Args[0] != ssa.Value(al) || !storesLimbOr(cal) {
+				return false
+			}
+			writers++
+		default:
+			return false // a store or anything else that could put another value there
+		}
+	}
+	return writers == 1
+}
+
+// storesLimbOr: fn(out *uint64, in *[4]uint64) { *out = in[0] | in[1] | in[2] | in[3] }
+func storesLimbOr(fn *ssa.Function) bool {
+	if fn == nil || len(fn.Blocks) != 1 || len(fn.Params) != 2 {
+		return false
+	}
+	var st *ssa.Store
+	for _, in := range fn.Blocks[0].Instrs {
+		switch x := in.(type) {
+		case *ssa.Store:
+			if st != nil {
+				return false
+			}
+			st = x
+		case ssa.CallInstruction:
+			return false
+		}
+	}
+	if st == nil || st.Addr != ssa.Value(fn.Params[0]) {
+		return false
+	}
+	seen := map[int64]bool{}
+	var walk func(v ssa.Value, depth int) bool
+	walk = func(v ssa.Value, depth int) bool {
+		if depth > 8 {
+			return false
+		}
+		switch x := v.(type) {
+		case *ssa.BinOp:
+			return x.Op == token.OR && walk(x.X, depth+1) && walk(x.Y, depth+1)
+		case *ssa.ChangeType:
+			return walk(x.X, depth+1)
+		case *ssa.Convert:
+			wi, _ := typeBits(x.X.Type())
+			wo, _ := typeBits(x.Type())
+			return wi == wo && walk(x.X, depth+1)
+		case *ssa.UnOp:
+			if x.Op != token.MUL {
+				return false
+			}
+			ia, ok := x.X.(*ssa.IndexAddr)
+			if !ok || ia.X != ssa.Value(fn.Params[1]) {
+				return false
+			}
+			c, ok := ia.Index.(*ssa.Const)
+			if !ok || c.Value == nil {
+				return false
+			}
+			seen[c.Int64()] = true
+			return true
+		}
+		return false
+	}
+	if !walk(st.Val, 0) {
+		return false
+	}
+	at, ok := fn.Params[1].Type().Underlying().(*types.Pointer)
+	if !ok {
+		return false
+	}
+	arr, ok := at.Elem().Underlying().(*types.Array)
+	if !ok || int64(len(seen)) != arr.Len() {
+		return false
+	}
+	return true
 }
